@@ -465,7 +465,7 @@ func (x *Run) exec(fr *Frame, st *State, instr ssa.Instruction, outs *[]Outcome)
 		x.mayPanic(fr, st, and(fmt.Sprintf("(>= %s 0)", ln.T), fmt.Sprintf("(>= %s %s)", cp.T, ln.T)), "makeslice", ins, outs)
 		s := x.d.sortOf(ins.Type())
 		el := ins.Type().Underlying().(*types.Slice).Elem()
-		fr.env[ins] = Val{T: x.mkSlice(s, fmt.Sprintf("((as const (Array Int %s)) %s)", x.d.sortOf(el), x.d.zero(el)), ln.T), S: s, Ty: ins.Type()}
+		fr.env[ins] = Val{T: x.mkSlice(s, x.d.constArray("Int", x.d.sortOf(el), x.d.zero(el)), ln.T), S: s, Ty: ins.Type()}
 	case *ssa.MakeChan:
 		sz := x.val(fr, st, ins.Size)
 		x.mayPanic(fr, st, fmt.Sprintf("(>= %s 0)", sz.T), "makechan", ins, outs)
@@ -482,6 +482,7 @@ func (x *Run) exec(fr *Frame, st *State, instr ssa.Instruction, outs *[]Outcome)
 		}
 		st.nfresh++
 		fr.env[ins] = Val{T: intLit(int64(-st.nfresh)), S: SInt, Ty: ins.Type(), Clo: clo}
+		st.closures = append(st.closures, fr.env[ins])
 	case *ssa.MakeInterface:
 		v := x.val(fr, st, ins.X)
 		if v.Ty == nil {
